@@ -199,10 +199,8 @@ static void bases_K(Report & rep)
         }
       rep.judge("monomial_integral.P" + std::to_string(P), st, worst / scale, tol, det);
     };
-    mi(std::integral_constant<size_t, 0>{});
-    mi(std::integral_constant<size_t, 1>{});
-    mi(std::integral_constant<size_t, 2>{});
-    mi(std::integral_constant<size_t, 3>{});
+    // every differentiation order 0 .. K+1 (the products of falling factorials reach 10!^2 = 1.3e13 at K = P = 10)
+    [&]<size_t... Ps>(std::index_sequence<Ps...>) { (mi(std::integral_constant<size_t, Ps>{}), ...); }(std::make_index_sequence<K + 2>{});
     // lagrange basis: p_i(t_j) = delta_ij
     {
       std::array<double, K + 1> ts;
